@@ -11,6 +11,7 @@
 #include <climits>
 #include <cerrno>
 #include <type_traits>
+#include <optional>
 
 using vrt::Rng;
 using vrt::sfmt;
@@ -386,11 +387,13 @@ static int stale_errno()
 }
 
 // ---------------------------------------------------------------- parsing arbitrary text
-static void parse_case(const S &text, int base)
+// `str` holds `text`; `rot` rotates the order in which the members are called (what one member leaves behind on the thread must
+// not show in the next, whichever comes first)
+static void parse_on(const ST::string &str, const S &text, int base, unsigned rot = 0)
 {
     vrt::cur_rewind();
     vrt::cur_printf("parse text=%s base=%d\n", show(text).c_str(), base);
-    vrt::Box<ST::string> st(vrt::mk(text));
+    const ST::string *st = &str;
     const char *c = st->c_str();                  // what the library hands to the C library
     const bool empty = text.empty();
     auto flags = [&](const char *endp, bool &ok, bool &full) {
@@ -420,16 +423,20 @@ static void parse_case(const S &text, int base)
             report(member, sfmt("got=%lld ok=%d full=%d want=%lld ok=%d full=%d", (long long)got, r.ok(), r.full_match(), (long long)want, wok, wfull)); \
         if (got2 != want) report(member, sfmt("(no result arg) got=%lld want=%lld", (long long)got2, (long long)want));    \
     } while (0)
-    PARSE("to_long", to_long(r, base), to_long(base), strtol, long, );
-    PARSE("to_int", to_int(r, base), to_int(base), strtol, int, static_cast<int>);
-    PARSE("to_short", to_short(r, base), to_short(base), strtol, short, static_cast<short>);
-    PARSE("to_long_long", to_long_long(r, base), to_long_long(base), strtoll, long long, );
-    PARSE("to_int64", to_int64(r, base), to_int64(base), strtoll, int64_t, static_cast<int64_t>);
-    PARSE("to_ulong", to_ulong(r, base), to_ulong(base), strtoul, unsigned long, );
-    PARSE("to_uint", to_uint(r, base), to_uint(base), strtoul, unsigned int, static_cast<unsigned int>);
-    PARSE("to_ushort", to_ushort(r, base), to_ushort(base), strtoul, unsigned short, static_cast<unsigned short>);
-    PARSE("to_ulong_long", to_ulong_long(r, base), to_ulong_long(base), strtoull, unsigned long long, );
-    PARSE("to_uint64", to_uint64(r, base), to_uint64(base), strtoull, uint64_t, static_cast<uint64_t>);
+    for (unsigned k = 0; k < 10; ++k) {
+        switch ((k + rot) % 10) {
+        case 0: PARSE("to_long", to_long(r, base), to_long(base), strtol, long, ); break;
+        case 1: PARSE("to_int", to_int(r, base), to_int(base), strtol, int, static_cast<int>); break;
+        case 2: PARSE("to_short", to_short(r, base), to_short(base), strtol, short, static_cast<short>); break;
+        case 3: PARSE("to_long_long", to_long_long(r, base), to_long_long(base), strtoll, long long, ); break;
+        case 4: PARSE("to_int64", to_int64(r, base), to_int64(base), strtoll, int64_t, static_cast<int64_t>); break;
+        case 5: PARSE("to_ulong", to_ulong(r, base), to_ulong(base), strtoul, unsigned long, ); break;
+        case 6: PARSE("to_uint", to_uint(r, base), to_uint(base), strtoul, unsigned int, static_cast<unsigned int>); break;
+        case 7: PARSE("to_ushort", to_ushort(r, base), to_ushort(base), strtoul, unsigned short, static_cast<unsigned short>); break;
+        case 8: PARSE("to_ulong_long", to_ulong_long(r, base), to_ulong_long(base), strtoull, unsigned long long, ); break;
+        default: PARSE("to_uint64", to_uint64(r, base), to_uint64(base), strtoull, uint64_t, static_cast<uint64_t>); break;
+        }
+    }
 #undef PARSE
     {
         char *endp = nullptr;
@@ -442,6 +449,12 @@ static void parse_case(const S &text, int base)
         if (errno == ERANGE) vrt::count("parse.overflow");
     }
     vrt::distinct(vrt::fnv_u64(static_cast<uint64_t>(base), vrt::fnv1a(text.data(), text.size(), 51)));
+}
+
+static void parse_case(const S &text, int base)
+{
+    vrt::Box<ST::string> st(vrt::mk(text));
+    parse_on(*st, text, base);
 }
 
 static S gen_numeral(Rng &r, int &base)
@@ -568,6 +581,306 @@ static void plan_consumed(Rng &r, BigNumeral &p, size_t consumed)
         if (p.D == 0) { p.D = 1; if (p.Z) --p.Z; else --p.W; }
         break;
     }
+}
+
+// ---------------------------------------------------------------- state that survives a call: sequences of conversions
+// The digit generators and the parsers are pure functions of their arguments; nothing an earlier call on the thread did (a
+// memo of the last value / base / letter case / text, a counter, scratch storage shared by from_int, ST::format and
+// string_stream) may show in a later result.  Sequences are made of conversions whose arguments collide under a plausible
+// memo key; every result is compared with the reference right away, as in the other phases.
+enum Via { VIA_FROM, VIA_FORMAT, VIA_STREAM, VIA_FROM64, N_VIA };
+static const char *via_name(unsigned v)
+{
+    static const char *const n[] = {"from_int", "format", "string_stream", "from_int64"};
+    return n[v % N_VIA];
+}
+
+// type indexes: 0 short, 1 unsigned short, 2 int, 3 unsigned int, 4 long, 5 unsigned long, 6 long long, 7 unsigned long long
+template <typename F>
+static void with_type(unsigned type, F &&f)
+{
+    switch (type & 7) {
+    case 0: f(short()); break;
+    case 1: f(static_cast<unsigned short>(0)); break;
+    case 2: f(int()); break;
+    case 3: f(unsigned()); break;
+    case 4: f(long()); break;
+    case 5: f(static_cast<unsigned long>(0)); break;
+    case 6: f(static_cast<long long>(0)); break;
+    default: f(static_cast<unsigned long long>(0)); break;
+    }
+}
+static unsigned width_of(unsigned type) { return (type & 7) < 2 ? 16 : (type & 7) < 4 ? 32 : 64; }
+static bool signed_type(unsigned type) { return (type & 1) == 0; }
+
+struct Op {
+    unsigned type = 6;
+    unsigned long long bits = 0;     // the value is static_cast<T>(bits)
+    int base = 10;
+    bool upper = false;
+    unsigned via = VIA_FROM;         // falls back to from_int / from_uint where the entry point has no such base / case
+};
+
+// the bits of a value of type `type` with (about) magnitude m and the given sign: m is cut to what the type can hold
+static unsigned long long value_bits(unsigned type, unsigned long long m, bool neg)
+{
+    const unsigned w = width_of(type);
+    if (signed_type(type)) {
+        const unsigned long long top = 1ull << (w - 1);
+        const unsigned long long wm = w == 64 ? m : m & ((1ull << w) - 1);
+        if (neg && wm == top) return 0ull - top;        // the most negative value
+        m &= top - 1;
+        return neg ? 0ull - m : m;
+    }
+    return w == 64 ? m : m & ((1ull << w) - 1);
+}
+static unsigned long long magnitude_of(const Op &o, bool &neg)
+{
+    unsigned long long m = 0;
+    neg = false;
+    with_type(o.type, [&](auto tag) {
+        typedef decltype(tag) T;
+        const T v = static_cast<T>(o.bits);
+        if constexpr (std::is_signed<T>::value) {
+            if (v < 0) { neg = true; m = 0ull - static_cast<unsigned long long>(static_cast<long long>(v)); return; }
+        }
+        m = static_cast<unsigned long long>(v);
+    });
+    return m;
+}
+static S op_text(const Op &o)
+{
+    S s;
+    with_type(o.type, [&](auto tag) {
+        typedef decltype(tag) T;
+        s = sfmt("%s %s base=%d %s via %s", Name<T>::get(), ref_text(static_cast<T>(o.bits), 10, false).c_str(), o.base, o.upper ? "upper" : "lower", via_name(o.via));
+    });
+    return s;
+}
+
+template <typename T>
+static S lib_text(T v, int base, bool upper, unsigned via, unsigned &used)
+{
+    if (via == VIA_FORMAT && !upper) {
+        static unsigned alt = 0;
+        const char *fmt = base == 10 ? ((alt++ & 1) ? "{d}" : "{}") : base == 16 ? "{x}" : base == 8 ? "{o}" : base == 2 ? "{b}" : nullptr;
+        if (fmt) { used = VIA_FORMAT; return vrt::str_of(ST::format(fmt, v)); }
+    }
+    if (via == VIA_FORMAT && upper && base == 16) { used = VIA_FORMAT; return vrt::str_of(ST::format("{X}", v)); }
+    if (via == VIA_STREAM && base == 10 && !upper) {
+        used = VIA_STREAM;
+        vrt::Box<ST::string_stream> ss;
+        stream_put<T>(*ss, v);
+        return S(ss->raw_buffer(), ss->size());
+    }
+    if constexpr (sizeof(T) == 8) {
+        if (via == VIA_FROM64) {
+            used = VIA_FROM64;
+            if constexpr (std::is_signed<T>::value) return vrt::str_of(ST::string::from_int64(static_cast<int64_t>(v), base, upper));
+            else return vrt::str_of(ST::string::from_uint64(static_cast<uint64_t>(v), base, upper));
+        }
+    }
+    used = VIA_FROM;
+    return vrt::str_of(lib_from<T>(v, base, upper));
+}
+
+// what two consecutive conversions have in common (counted, so that a run shows which collisions it produced)
+static void classify(const Op &a, const Op &b)
+{
+    bool na, nb;
+    const unsigned long long ma = magnitude_of(a, na), mb = magnitude_of(b, nb);
+    static uint64_t &pairs = vrt::counter("memo.consecutive_conversions");
+    ++pairs;
+    if (a.base == b.base && a.upper == b.upper) {
+        if (ma != mb) {
+            const unsigned long long x = ma ^ mb;
+            static uint64_t &c8 = vrt::counter("memo.adjacent_magnitudes_equal_mod_2^8"), &c16 = vrt::counter("memo.adjacent_magnitudes_equal_mod_2^16"),
+                            &c31 = vrt::counter("memo.adjacent_magnitudes_equal_mod_2^31"), &c32 = vrt::counter("memo.adjacent_magnitudes_equal_mod_2^32"),
+                            &c48 = vrt::counter("memo.adjacent_magnitudes_equal_mod_2^48"), &c56 = vrt::counter("memo.adjacent_magnitudes_equal_mod_2^56"),
+                            &c63 = vrt::counter("memo.adjacent_magnitudes_equal_mod_2^63");
+            if ((x & 0xffull) == 0) ++c8;
+            if ((x & 0xffffull) == 0) ++c16;
+            if ((x & 0x7fffffffull) == 0) ++c31;
+            if ((x & 0xffffffffull) == 0) ++c32;
+            if ((x & 0xffffffffffffull) == 0) ++c48;
+            if ((x & 0xffffffffffffffull) == 0) ++c56;
+            if ((x & 0x7fffffffffffffffull) == 0) ++c63;
+            if (a.bits == b.bits && a.type != b.type) { static uint64_t &c = vrt::counter("memo.adjacent_same_bits_other_type_other_value"); ++c; }
+        } else if (na != nb) {
+            static uint64_t &c = vrt::counter("memo.adjacent_same_magnitude_other_sign"); ++c;
+        } else if (a.type != b.type) {
+            static uint64_t &c = vrt::counter("memo.adjacent_same_value_other_type"); ++c;
+        } else {
+            static uint64_t &c = vrt::counter("memo.adjacent_identical"); ++c;
+        }
+    } else if (ma == mb && na == nb) {
+        if (a.base != b.base) { static uint64_t &c = vrt::counter("memo.adjacent_same_value_other_base"); ++c; }
+        else { static uint64_t &c = vrt::counter("memo.adjacent_same_value_other_letter_case"); ++c; }
+    }
+    if (a.via != b.via) { static uint64_t &c = vrt::counter("memo.adjacent_through_different_entry_points"); ++c; }
+}
+
+// one conversion, compared with the reference; `prev` is the conversion made right before it (for the report)
+static S run_op(const Op &o, const Op *prev, const char *what)
+{
+    S got;
+    with_type(o.type, [&](auto tag) {
+        typedef decltype(tag) T;
+        const T v = static_cast<T>(o.bits);
+        unsigned used = VIA_FROM;
+        got = lib_text<T>(v, o.base, o.upper, o.via, used);
+        vrt::evals();
+        const S want = ref_text(v, o.base, o.upper);
+        if (got != want)
+            viol(Name<T>::get(), sfmt("consecutive:%s", via_name(used)).c_str(),
+                 sfmt("%s: %s got=%s want=%s; the conversion right before it on this thread: %s", what, op_text(o).c_str(), got.c_str(), want.c_str(), prev ? op_text(*prev).c_str() : "(first of the sequence)"));
+        static uint64_t *const per_via[N_VIA] = {&vrt::counter("memo.via.from_int"), &vrt::counter("memo.via.format"), &vrt::counter("memo.via.string_stream"), &vrt::counter("memo.via.from_int64")};
+        ++*per_via[used];
+    });
+    if (prev) classify(*prev, o);
+    return got;
+}
+
+// a sequence of conversions back to back, then (optionally) every text parsed back
+static void run_ops(const std::vector<Op> &ops, const char *what, bool parse_after)
+{
+    vrt::cur_rewind();
+    vrt::cur_printf("%s: %zu consecutive conversions, first: %s, last: %s\n", what, ops.size(), ops.empty() ? "" : op_text(ops.front()).c_str(), ops.empty() ? "" : op_text(ops.back()).c_str());
+    std::vector<S> texts;
+    for (size_t k = 0; k < ops.size(); ++k) texts.push_back(run_op(ops[k], k ? &ops[k - 1] : nullptr, what));
+    if (!parse_after) return;
+    for (size_t k = 0; k < ops.size(); ++k)
+        with_type(ops[k].type, [&](auto tag) {
+            typedef decltype(tag) T;
+            parse_back<T>(vrt::mk(texts[k]), static_cast<T>(ops[k].bits), ops[k].base);
+        });
+}
+
+static unsigned long long rand_bits(Rng &r, unsigned maxbits)
+{
+    if (maxbits == 0) return 0;
+    const unsigned keep = 1 + static_cast<unsigned>(r.below(maxbits));
+    unsigned long long b = r.next();
+    if (keep < 64) b &= (1ull << keep) - 1;
+    return b;
+}
+
+// a type for the next conversion of a sequence: the same, one of the same width, or any
+static unsigned related_type(Rng &r, unsigned type)
+{
+    switch (r.below(4)) {
+    case 0: case 1: return type;
+    case 2: { const unsigned w = width_of(type); unsigned t; do t = static_cast<unsigned>(r.below(8)); while (width_of(t) != w); return t; }
+    default: return static_cast<unsigned>(r.below(8));
+    }
+}
+static unsigned type_at_least(Rng &r, unsigned bits)       // a type with more than `bits` value bits, where there is one
+{
+    for (int tries = 0; tries < 32; ++tries) {
+        const unsigned t = static_cast<unsigned>(r.below(8));
+        if (width_of(t) - (signed_type(t) ? 1 : 0) > bits) return t;
+    }
+    return 7;
+}
+static void some_base(Rng &r, int &base, bool &upper)
+{
+    static const int common[] = {10, 10, 10, 16, 16, 2, 8, 36};
+    base = r.chance(1, 3) ? 2 + static_cast<int>(r.below(35)) : r.pick(common);
+    upper = r.chance(1, 2);
+}
+
+static const unsigned memo_K[] = {8, 16, 24, 31, 32, 40, 48, 56, 60, 63};
+
+// the conversion after `prev` in a soak: related to it in one of the ways a memo key could confuse
+static Op next_related(Rng &r, const Op &prev, unsigned kind)
+{
+    Op o = prev;
+    bool neg;
+    const unsigned long long m = magnitude_of(prev, neg);
+    switch (kind) {
+    case 0: {       // other magnitude, equal modulo 2^K; same base and letter case
+        const unsigned K = r.pick(memo_K);
+        o.type = r.chance(1, 2) ? prev.type : type_at_least(r, K);
+        unsigned long long h = rand_bits(r, 64 - K);
+        if (r.chance(1, 4)) h = 1ull << r.below(64 - K);
+        unsigned long long m2 = m ^ (h << K);
+        if (r.chance(1, 4)) m2 = (m & ((1ull << K) - 1)) | (h << K);
+        o.bits = value_bits(o.type, m2, r.chance(1, 4) ? !neg : neg);
+        break;
+    }
+    case 1:         // same magnitude, other sign and / or type
+        o.type = related_type(r, prev.type);
+        o.bits = value_bits(o.type, m, r.chance(1, 2) ? !neg : neg);
+        break;
+    case 2:         // same bits, other type
+        o.type = static_cast<unsigned>(r.below(8));
+        break;
+    case 3:         // same value, other base and / or letter case
+        if (r.chance(1, 2)) o.upper = !o.upper;
+        else { const int b = o.base; do some_base(r, o.base, o.upper); while (o.base == b); }
+        break;
+    case 4:         // a neighbour, a digit more or fewer
+        switch (r.below(4)) {
+        case 0: o.bits = value_bits(o.type, m + 1, neg); break;
+        case 1: o.bits = value_bits(o.type, m - 1, neg); break;
+        case 2: o.bits = value_bits(o.type, m * static_cast<unsigned>(o.base), neg); break;
+        default: o.bits = value_bits(o.type, m / static_cast<unsigned>(o.base), neg); break;
+        }
+        break;
+    case 5:         // the same again
+        break;
+    default:        // unrelated
+        o.type = static_cast<unsigned>(r.below(8));
+        o.bits = value_bits(o.type, rand_bits(r, 64), r.chance(1, 2));
+        if (r.chance(1, 2)) some_base(r, o.base, o.upper);
+        break;
+    }
+    return o;
+}
+
+// ---------------------------------------------------------------- same storage: numerals of identical length that share their ends
+// 3..6 texts of exactly `n` bytes with the same first and last `share` bytes; the middles differ in what decides the result
+// (a digit, where the digits stop, a NUL, no digit at all)
+static std::vector<S> sibling_numerals(Rng &r, size_t n, int base, size_t &share)
+{
+    share = std::min<size_t>(16, (n - 4) / 2);
+    const int eff = base == 0 ? 10 : base;
+    auto digit = [&](unsigned d) { return static_cast<char>(d < 10 ? '0' + d : (r.chance(1, 2) ? 'a' : 'A') + d - 10); };
+    // head: blanks, a sign, zeros
+    S head;
+    {
+        const size_t blanks = r.chance(1, 3) ? 0 : r.below(share);
+        for (size_t i = 0; i < blanks; ++i) head += " \t\n"[r.below(3)];
+        if (head.size() < share && r.chance(1, 2)) head += r.chance(1, 2) ? '-' : '+';
+        while (head.size() < share) head += '0';
+    }
+    // tail: digits that still belong to the number, or bytes behind the place where the C library stops
+    const bool tail_is_digits = r.chance(1, 2);
+    S tail;
+    for (size_t i = 0; i < share; ++i) tail += tail_is_digits ? digit(static_cast<unsigned>(r.below(eff))) : "xyz _.g"[r.below(7)];
+    const size_t mid = n - 2 * share;
+    // how many significant digits fit without saturating (so that a changed digit changes the value)
+    size_t room = 1;
+    { unsigned long long p = eff; while (p <= 0x7fffffffffffffffull / eff) { p *= eff; ++room; } }      // digits of a 63-bit value
+    const size_t sig_in_tail = tail_is_digits ? share : 0;
+    const size_t count = 3 + r.below(4);
+    std::vector<S> out;
+    for (size_t k = 0; k < count; ++k) {
+        S m(mid, '0');
+        const unsigned kind = static_cast<unsigned>(r.below(6));
+        const size_t sig = sig_in_tail >= room ? 0 : 1 + r.below(std::min(mid, room - sig_in_tail));      // significant digits at the end of the middle
+        for (size_t i = 0; i < sig && i < mid; ++i) m[mid - 1 - i] = digit(static_cast<unsigned>(r.below(eff)));
+        switch (kind) {
+        case 0: if (mid) m[mid - 1] = digit(static_cast<unsigned>(1 + r.below(eff - 1))); break;             // another last digit
+        case 1: if (mid) m[r.below(mid)] = "x .,_"[r.below(5)]; break;                                       // the digits stop inside the middle
+        case 2: if (mid) m[r.below(mid)] = '\0'; break;                                                        // a NUL inside the middle
+        case 3: if (mid) m[0] = r.chance(1, 2) ? 'z' : '-'; break;                                             // nothing to convert (or very little)
+        case 4: for (size_t i = 0; i < mid; ++i) m[i] = digit(static_cast<unsigned>(r.below(eff))); break;     // saturates (when long enough)
+        default: break;
+        }
+        out.push_back(head + m + tail);
+    }
+    return out;
 }
 
 static void body()
@@ -783,6 +1096,339 @@ static void body()
             vrt::count(sfmt("scale.stream_history.%s", history_name(history)));
             if (T >= 65536) vrt::count("scale.stream>=64KiB");
             if (T >= 1048576) vrt::count("scale.stream>=1MiB");
+        });
+    }
+    // ---- state that survives a call (DESIGN 8.7): conversions back to back whose arguments collide under a plausible memo key
+    {
+        vrt::require("memo.consecutive_conversions", 1000000);
+        vrt::require("memo.adjacent_magnitudes_equal_mod_2^8", 20000);
+        vrt::require("memo.adjacent_magnitudes_equal_mod_2^16", 20000);
+        vrt::require("memo.adjacent_magnitudes_equal_mod_2^31", 10000);
+        vrt::require("memo.adjacent_magnitudes_equal_mod_2^32", 10000);
+        vrt::require("memo.adjacent_magnitudes_equal_mod_2^48", 5000);
+        vrt::require("memo.adjacent_magnitudes_equal_mod_2^56", 5000);
+        vrt::require("memo.adjacent_magnitudes_equal_mod_2^63", 1000);
+        vrt::require("memo.adjacent_same_magnitude_other_sign", 10000);
+        vrt::require("memo.adjacent_same_value_other_type", 10000);
+        vrt::require("memo.adjacent_same_bits_other_type_other_value", 1000);
+        vrt::require("memo.adjacent_same_value_other_base", 10000);
+        vrt::require("memo.adjacent_same_value_other_letter_case", 10000);
+        vrt::require("memo.adjacent_identical", 10000);
+        vrt::require("memo.adjacent_through_different_entry_points", 100000);
+        vrt::require("memo.via.from_int", 100000);
+        vrt::require("memo.via.format", 100000);
+        vrt::require("memo.via.string_stream", 100000);
+        vrt::require("memo.via.from_int64", 10000);
+        vrt::require("memo.directed_sequences", 1000);
+
+        // directed: the extremes of every type after their halves / their unsigned counterparts, runs of powers of two, the same
+        // payload under different top bytes; every base x letter case, every ordered pair of entry points
+        vrt::phase("memo_directed", N_VIA * N_VIA, [&](uint64_t i, Rng &r) {
+            const unsigned via_a = static_cast<unsigned>(i % N_VIA), via_b = static_cast<unsigned>((i / N_VIA) % N_VIA);
+            std::vector<Op> ops;
+            auto add = [&](unsigned type, unsigned long long bits, int base, bool upper) {
+                Op o;
+                o.type = type; o.bits = bits; o.base = base; o.upper = upper;
+                o.via = ops.size() % 2 ? via_b : via_a;
+                ops.push_back(o);
+            };
+            auto flush = [&](const char *what, bool parse_after = true) {
+                run_ops(ops, what, parse_after);
+                vrt::count("memo.directed_sequences");
+                ops.clear();
+            };
+            const unsigned long long payload56 = r.next() >> 8, payload48 = r.next() >> 16, payload32 = r.next() >> 32;
+            for (int base = 2; base <= 36; ++base)
+                for (int up = 0; up < 2; ++up) {
+                    const bool u = up != 0;
+                    for (unsigned t = 0; t < 8; t += 2) {       // signed type t, its unsigned counterpart t + 1
+                        const unsigned w = width_of(t);
+                        const unsigned long long top = 1ull << (w - 1), smin = 0ull - top, smax = top - 1, umax = w == 64 ? ~0ull : (1ull << w) - 1;
+                        add(t, 0ull - top / 2, base, u); add(t, smin, base, u); add(t, 0ull - top / 2, base, u); flush("half of the most negative value, the most negative value, and back");
+                        add(t, smin, base, u); add(t, smax, base, u); add(t, smin, base, u); add(t, smin + 1, base, u); flush("most negative, largest, most negative, its neighbour");
+                        add(t, smax, base, u); add(t + 1, umax, base, u); add(t, smax, base, u); flush("largest signed, largest unsigned, and back");
+                        add(t, ~0ull, base, u); add(t + 1, umax, base, u); add(t, ~0ull, base, u); add(t + 1, 1, base, u); flush("-1 and the unsigned value with the same bits");
+                        add(t + 1, top, base, u); add(t, smin, base, u); add(t + 1, top, base, u); flush("2^(w-1) unsigned and the most negative value (same magnitude)");
+                        if (w < 64) {                               // the same numbers through the wider types
+                            add(t, smin, base, u); add(6, smin, base, u); add(4, smin, base, u); add(7, top, base, u); add(t + 1, top, base, u); flush("the most negative value of a narrow type through wider types");
+                            add(t + 1, umax, base, u); add(7, umax, base, u); add(6, umax, base, u); add(7, umax + 1, base, u); add(t + 1, umax, base, u); flush("the largest value of a narrow unsigned type through wider types, then one more");
+                        }
+                    }
+                    // powers of two, ascending and descending (from 2^56 on they are all equal modulo 2^56, from 2^32 on modulo 2^32 ...)
+                    for (unsigned b = 0; b < 64; ++b) add(7, 1ull << b, base, u);
+                    for (unsigned b = 64; b-- > 0;) add(5, 1ull << b, base, u);
+                    flush("powers of two as unsigned long long upwards, as unsigned long downwards", base == 10 || base == 16);
+                    for (unsigned b = 0; b < 63; ++b) add(6, 0ull - (1ull << b), base, u);
+                    add(6, 1ull << 63, base, u);
+                    for (unsigned b = 63; b-- > 0;) add(4, 1ull << b, base, u);
+                    flush("negative powers of two as long long down to the most negative value, positive ones as long", base == 10 || base == 16);
+                    for (unsigned b = 0; b < 32; ++b) { add(3, 1ull << b, base, u); add(2, 0ull - (1ull << b), base, u); }
+                    flush("powers of two as unsigned int and their negatives as int, alternating", base == 10 || base == 16);
+                    // one payload under different tags in the top byte / the top 16 bits / the top half; with zero in between
+                    static const unsigned tags[] = {0, 1, 2, 0x7f, 0x80, 0x81, 0xff, 0};
+                    for (unsigned tag : tags) add(7, payload56 | (static_cast<unsigned long long>(tag) << 56), base, u);
+                    for (unsigned tag : tags) { add(5, payload56 | (static_cast<unsigned long long>(tag) << 56), base, u); add(5, 0, base, u); }
+                    for (unsigned tag : tags) add(6, value_bits(6, payload56 | (static_cast<unsigned long long>(tag & 0x7f) << 56), (tag & 1) != 0), base, u);
+                    flush("one 56-bit payload under different top bytes");
+                    for (unsigned tag : tags) add(7, payload48 | (static_cast<unsigned long long>(tag * 0x101u) << 48), base, u);
+                    for (unsigned tag : tags) add(7, payload32 | (static_cast<unsigned long long>(tag * 0x1010101u) << 32), base, u);
+                    for (unsigned tag : tags) add(3, (payload32 & 0xffffff) | (static_cast<unsigned long long>(tag) << 24), base, u);
+                    for (unsigned tag : tags) add(1, (payload32 & 0xff) | (static_cast<unsigned long long>(tag) << 8), base, u);
+                    flush("one payload under different top 16 bits / top halves / top bytes of narrower types");
+                }
+            // one value through from_int, ST::format and string_stream back to back, in every order
+            static const unsigned orders[6][3] = {{0, 1, 2}, {0, 2, 1}, {1, 0, 2}, {1, 2, 0}, {2, 0, 1}, {2, 1, 0}};
+            for (unsigned t = 0; t < 8; ++t)
+                for (unsigned k = 0; k < 40; ++k) {
+                    const unsigned long long bits = k == 0 ? 1ull << (width_of(t) - 1) : k == 1 ? ~0ull : k == 2 ? (1ull << (width_of(t) - 1)) - 1 : value_bits(t, rand_bits(r, 64), r.chance(1, 2));
+                    for (const auto &ord : orders) {
+                        for (unsigned v : ord) { Op o; o.type = t; o.bits = bits; o.via = v; ops.push_back(o); }
+                        // ... and a different value of the same length right behind it, through the first entry point again
+                        bool neg;
+                        const unsigned long long m = magnitude_of(ops.back(), neg);
+                        Op o; o.type = t; o.bits = value_bits(t, m ^ 1, neg); o.via = ord[0];
+                        ops.push_back(o);
+                    }
+                    run_ops(ops, "one value through from_int, ST::format and string_stream back to back", k < 3);
+                    vrt::count("memo.same_value_through_three_entry_points", 6);
+                    ops.clear();
+                }
+            vrt::distinct(vrt::fnv_u64(i, 53));
+        });
+
+        // chains of 2..6 magnitudes that are equal modulo 2^K (K by case index), through related types, in one base and letter case
+        vrt::phase("memo_pairs", vrt::tier_count(960, 40000), [&](uint64_t i, Rng &r) {
+            const unsigned K = memo_K[i % (sizeof(memo_K) / sizeof(memo_K[0]))];
+            std::vector<Op> ops;
+            for (unsigned rep = 0; rep < 24; ++rep) {
+                const unsigned t0 = type_at_least(r, K);
+                unsigned long long low = r.chance(1, 8) ? 0 : r.chance(1, 3) ? (r.next() & ((1ull << K) - 1)) : rand_bits(r, K);
+                const size_t n = 2 + r.below(5);
+                std::vector<unsigned long long> mags;
+                std::vector<unsigned> types;
+                std::vector<bool> negs;
+                const bool neg0 = r.chance(1, 2), mixed_signs = r.chance(1, 4);
+                for (size_t k = 0; k < n; ++k) {
+                    unsigned long long h = (k == 0 && r.chance(1, 3)) ? 0 : r.chance(1, 4) ? 1ull << r.below(64 - K) : rand_bits(r, 64 - K);
+                    mags.push_back((h << K) | low);
+                    types.push_back(r.chance(2, 3) ? t0 : r.chance(1, 2) ? type_at_least(r, K) : related_type(r, t0));
+                    negs.push_back(mixed_signs ? r.chance(1, 2) : neg0);
+                }
+                if (n >= 3 && r.chance(1, 2)) { mags[n - 1] = mags[0]; types[n - 1] = types[0]; negs[n - 1] = negs[0]; }     // ... and back to the first
+                const unsigned nb = r.chance(1, 8) ? 35 : 4;
+                for (unsigned b = 0; b < nb; ++b) {
+                    int base; bool upper;
+                    if (nb == 35) { base = 2 + static_cast<int>(b); upper = r.chance(1, 2); } else some_base(r, base, upper);
+                    const bool one_via = r.chance(1, 3);
+                    const unsigned via0 = static_cast<unsigned>(r.below(N_VIA));
+                    for (size_t k = 0; k < n; ++k) {
+                        Op o;
+                        o.type = types[k]; o.bits = value_bits(types[k], mags[k], negs[k]); o.base = base; o.upper = upper;
+                        o.via = one_via ? via0 : static_cast<unsigned>(r.below(N_VIA));
+                        ops.push_back(o);
+                        if (r.chance(1, 6)) ops.push_back(o);                                       // the same twice
+                        if (r.chance(1, 10)) { Op z = o; z.bits = 0; ops.push_back(z); }            // zero in between
+                    }
+                    run_ops(ops, "magnitudes equal modulo a power of two, back to back", r.chance(1, 4));
+                    ops.clear();
+                }
+            }
+            vrt::count(sfmt("memo.pairs_cases.mod_2^%u", K));
+            vrt::distinct(vrt::fnv_u64(r.next(), 54));
+            if (vrt::want_sample("memo_pairs"))
+                vrt::sample("memo_pairs", sfmt("24 chains of 2..6 values whose magnitudes are equal modulo 2^%u (other top bits, other sign, related types), each chain converted back to back in 4 or 35 (base, letter case) settings through from_int / format / string_stream", K));
+        });
+
+        // one value, every ordered pair of bases (the second conversion must not replay the digits of the first)
+        vrt::phase("memo_bases", vrt::tier_count(64, 2000), [&](uint64_t, Rng &r) {
+            const unsigned t = static_cast<unsigned>(r.below(8));
+            const unsigned long long bits = r.chance(1, 6) ? 1ull << (width_of(t) - 1) : value_bits(t, rand_bits(r, 64), r.chance(1, 2));
+            std::vector<Op> ops;
+            const unsigned via0 = static_cast<unsigned>(r.below(N_VIA));
+            const bool one_via = r.chance(1, 2);
+            for (int b1 = 2; b1 <= 36; ++b1)
+                for (int b2 = 2; b2 <= 36; ++b2) {
+                    Op o;
+                    o.type = t; o.bits = bits;
+                    o.base = b1; o.upper = r.chance(1, 2); o.via = one_via ? via0 : static_cast<unsigned>(r.below(N_VIA));
+                    ops.push_back(o);
+                    o.base = b2; o.upper = b1 == b2 ? !o.upper : r.chance(1, 2); o.via = one_via ? via0 : static_cast<unsigned>(r.below(N_VIA));
+                    ops.push_back(o);
+                }
+            run_ops(ops, "one value in every ordered pair of bases", false);
+            vrt::distinct(vrt::fnv_u64(bits, 55 + t));
+            if (vrt::want_sample("memo_bases")) vrt::sample("memo_bases", sfmt("%s in all 35 x 35 ordered pairs of bases, letter case varied", op_text(ops[0]).c_str()));
+        });
+
+        // soak: > 70000 consecutive conversions per entry point inside ONE case, each related to the one before it (equal modulo
+        // 2^K, other sign, other type, other base / case, a neighbour, the same) or not; runs of 64..300 identical conversions
+        // followed directly by one that collides with them
+        vrt::require("soak.conversions", 2000000);
+        vrt::require("soak.boring_runs_then_a_collision", 2000);
+        vrt::phase("soak_digits", vrt::thorough() ? 96 : 16, [&](uint64_t, Rng &r) {
+            const size_t per_segment = static_cast<size_t>(vrt::tier_count(70000, 200000));
+            uint64_t done = 0;
+            Op prev;
+            prev.bits = r.next();
+            for (unsigned segment = 0; segment < 5; ++segment) {       // from_int only, format only, string_stream only, from_int64 only, mixed
+                size_t boring = 0;
+                bool collide_next = false;
+                for (size_t it = 0; it < per_segment; ++it) {
+                    unsigned kind;
+                    if (boring) { kind = 5; if (--boring == 0) collide_next = true; }
+                    else if (collide_next) { kind = r.chance(3, 4) ? 0 : static_cast<unsigned>(1 + r.below(3)); collide_next = false; vrt::count("soak.boring_runs_then_a_collision"); }
+                    else if (r.chance(1, 600)) { kind = 6; boring = 64 + r.below(237); }
+                    else { static const unsigned kinds[] = {0, 0, 0, 0, 1, 2, 3, 4, 5, 6, 6, 6}; kind = r.pick(kinds); }
+                    Op o = next_related(r, prev, kind);
+                    switch (segment) {
+                    case 0: o.via = VIA_FROM; break;
+                    case 1: o.via = VIA_FORMAT; if (kind == 6 || kind == 3) { static const int fb[] = {10, 10, 16, 16, 8, 2}; o.base = r.pick(fb); o.upper = o.base == 16 && r.chance(1, 2); }
+                            if (!(o.base == 10 || o.base == 16 || o.base == 8 || o.base == 2)) o.base = 10;
+                            if (o.base != 16) o.upper = false;
+                            break;
+                    case 2: o.via = VIA_STREAM; o.base = 10; o.upper = false; break;
+                    case 3: o.via = VIA_FROM64; if (width_of(o.type) != 64) o.type = 4 + (o.type & 3); break;
+                    default: if (!boring) o.via = static_cast<unsigned>(r.below(N_VIA)); break;
+                    }
+                    if ((it & 1023) == 0) { vrt::cur_rewind(); vrt::cur_printf("soak segment %u conversion %zu: %s after %s\n", segment, it, op_text(o).c_str(), op_text(prev).c_str()); }
+                    (void)run_op(o, &prev, "soak");
+                    prev = o;
+                    ++done;
+                }
+            }
+            vrt::count("soak.conversions", done);
+            vrt::distinct(vrt::fnv_u64(r.next(), 56));
+            if (vrt::want_sample("soak"))
+                vrt::sample("soak", sfmt("%zu consecutive conversions per entry point (from_int/from_uint, ST::format, string_stream <<, from_int64/from_uint64, then mixed) in one process, each related to the one before; last: %s", per_segment, op_text(prev).c_str()));
+        });
+    }
+    // ---- same storage: the parsers on numerals of identical length that share their first and last 16 bytes, one after the other
+    // in the same string object (assigned, or cleared and assigned so that the new text lands in the block of the old one) or in
+    // an object built at the address of its destroyed predecessor
+    {
+        vrt::require("same_storage.texts", 1000);
+        vrt::require("same_storage.text_at_the_address_of_the_previous_one", 300);
+        vrt::require("same_storage.object_at_the_address_of_the_previous_one", 150);
+        vrt::require("same_storage.results_differ_between_siblings", 300);
+        static const size_t sizes[] = {8, 12, 15, 16, 20, 40, 64, 100, 256, 300, 1024, 1500, 4096, 5000, 16384, 70000};
+        const size_t nsizes = sizeof(sizes) / sizeof(sizes[0]);
+        vrt::phase("same_storage", vrt::tier_count(nsizes * 48, nsizes * 1200), [&](uint64_t i, Rng &r) {
+            const size_t n = sizes[i % nsizes];
+            const unsigned mode = static_cast<unsigned>((i / nsizes) % 3);
+            static const int bases[] = {10, 10, 16, 0, 2, 8, 36, 7};
+            const int base = r.pick(bases);
+            size_t share;
+            const std::vector<S> texts = sibling_numerals(r, n, base, share);
+            const char *last_text = nullptr;
+            const void *last_obj = nullptr;
+            long long last_value = 0;
+            std::optional<vrt::Box<ST::string>> cur;
+            for (size_t k = 0; k < texts.size(); ++k) {
+                const S &t = texts[k];
+                switch (mode) {
+                case 0:         // one object, assigned
+                    if (!cur) cur.emplace(vrt::mk(t));
+                    else **cur = vrt::mk(t);
+                    break;
+                case 1:         // one object, emptied (its block is released and parked) and assigned (the new text takes that block)
+                    if (!cur) cur.emplace(vrt::mk(t));
+                    else { vrt::placement_force_parks() = 1; **cur = ST::string(); **cur = vrt::mk(t); vrt::placement_force_parks() = 0; }
+                    break;
+                default:        // the object destroyed and its successor built at once: object block and text block are handed out again
+                    if (cur) { vrt::placement_force_parks() = 2; cur.reset(); }
+                    cur.emplace(vrt::mk(t));
+                    vrt::placement_force_parks() = 0;
+                    break;
+                }
+                const ST::string &s = **cur;
+                if (k && s.c_str() == last_text) vrt::count("same_storage.text_at_the_address_of_the_previous_one");
+                if (k && mode == 2 && static_cast<const void *>(&s) == last_obj) vrt::count("same_storage.object_at_the_address_of_the_previous_one");
+                last_text = s.c_str();
+                last_obj = &s;
+                parse_on(s, t, base, static_cast<unsigned>(r.below(10)));
+                if (r.chance(1, 3)) {           // ... and right away in another base
+                    int b;
+                    do b = r.pick(bases); while (b == base);
+                    parse_on(s, t, b, static_cast<unsigned>(r.below(10)));
+                    vrt::count("same_storage.same_text_parsed_in_another_base");
+                }
+                const long long v = strtoll(t.c_str(), nullptr, base);
+                if (k && v != last_value) vrt::count("same_storage.results_differ_between_siblings");
+                last_value = v;
+                vrt::count("same_storage.texts");
+            }
+            cur.reset();
+            vrt::count(sfmt("same_storage.mode.%s", mode == 0 ? "assigned" : mode == 1 ? "cleared_then_assigned" : "destroyed_and_rebuilt"));
+            if (vrt::want_sample("same_storage"))
+                vrt::sample("same_storage", sfmt("%zu numerals of %zu bytes sharing their first and last %zu bytes, base %d, parsed one after the other in the same storage; first: %s", texts.size(), n, share, base, scale::brief(texts[0]).c_str()));
+        });
+
+        // soak: > 70000 texts of 16..64 bytes parsed one after the other inside ONE case, in storage that keeps its address; runs of
+        // 64..300 identical texts followed directly by one that differs from them in a single byte near the end
+        vrt::require("soak.parsed_texts", 1000000);
+        vrt::require("soak.parse_boring_runs_then_a_change", 500);
+        vrt::require("soak.same_text_parsed_in_another_base", 20000);
+        vrt::require("soak.text_at_the_address_of_the_previous_one", 300000);
+        vrt::phase("soak_parse", vrt::thorough() ? 96 : 16, [&](uint64_t, Rng &r) {
+            const size_t iters = static_cast<size_t>(vrt::tier_count(70000, 200000));
+            std::optional<vrt::Box<ST::string>> cur;
+            S t;
+            int base = 10;
+            size_t boring = 0;
+            bool change_next = false;
+            const char *last_text = nullptr;
+            uint64_t same_address = 0;
+            for (size_t it = 0; it < iters; ++it) {
+                if (boring) { if (--boring == 0) change_next = true; }
+                else if (!t.empty() && !change_next && r.chance(1, 6)) {        // the same text, another base
+                    static const int other[] = {10, 16, 0, 2, 8, 36, 7};
+                    int b;
+                    do b = r.pick(other); while (b == base);
+                    base = b;
+                    vrt::count("soak.same_text_parsed_in_another_base");
+                }
+                else if (!t.empty() && (change_next || r.chance(1, 2))) {
+                    // the same length, the same first and last 8 bytes: one byte changes (a digit, or the digits stop there)
+                    if (change_next) vrt::count("soak.parse_boring_runs_then_a_change");
+                    const size_t lo = change_next ? t.size() - 1 - r.below(7) : 8 + r.below(t.size() - 16 + 1);
+                    const size_t at = std::min(lo, t.size() - 1);
+                    const int eff = base == 0 ? 10 : base;
+                    const unsigned d = static_cast<unsigned>(r.below(eff));
+                    char c = r.chance(1, 5) ? "x \0.-"[r.below(5)] : static_cast<char>(d < 10 ? '0' + d : 'a' + d - 10);
+                    if (c == t[at]) c = c == '1' ? '0' : '1';
+                    t[at] = c;
+                    change_next = false;
+                } else {
+                    static const int bases[] = {10, 10, 10, 16, 0, 2, 8, 36};
+                    base = r.pick(bases);
+                    const int eff = base == 0 ? 10 : base;
+                    const size_t n = 16 + r.below(49);
+                    t.clear();
+                    const size_t blanks = r.chance(1, 2) ? 0 : r.below(n / 2);
+                    t.append(blanks, ' ');
+                    if (r.chance(1, 3)) t += '-';
+                    size_t sig = 1 + r.below(18);
+                    if (base == 2 || r.chance(1, 8)) sig = 1 + r.below(n);
+                    while (t.size() + sig < n) t += '0';
+                    while (t.size() < n) { const unsigned d = static_cast<unsigned>(r.below(eff)); t += static_cast<char>(d < 10 ? '0' + d : 'A' + d - 10); }
+                    if (r.chance(1, 5)) t[n - 1 - r.below(8)] = "x _"[r.below(3)];
+                    if (r.chance(1, 300)) boring = 64 + r.below(237);
+                }
+                // storage: three times in four the text lands where the previous one was
+                switch (cur ? r.below(4) : 3) {
+                case 0: vrt::placement_force_parks() = 1; **cur = ST::string(); **cur = vrt::mk(t); vrt::placement_force_parks() = 0; break;
+                case 1: case 2: vrt::placement_force_parks() = 2; cur.reset(); cur.emplace(vrt::mk(t)); vrt::placement_force_parks() = 0; break;
+                default: if (cur) **cur = vrt::mk(t); else cur.emplace(vrt::mk(t)); break;
+                }
+                if ((*cur)->c_str() == last_text) ++same_address;
+                last_text = (*cur)->c_str();
+                parse_on(**cur, t, base, static_cast<unsigned>(it % 10));
+            }
+            cur.reset();
+            vrt::count("soak.parsed_texts", iters);
+            vrt::count("soak.text_at_the_address_of_the_previous_one", same_address);
+            if (vrt::want_sample("soak_parse"))
+                vrt::sample("soak_parse", sfmt("%zu texts of 16..64 bytes parsed one after the other with all to_* members; %llu of them at the address of their predecessor; last: %s base=%d", iters, static_cast<unsigned long long>(same_address), show(t).c_str(), base));
         });
     }
     vrt::alloc::check_pairing("ints");
